@@ -234,9 +234,7 @@ Definition run_tree (x : sx) : sx :=
           (SL [enc model; SL (map SB me)]).
 
 
-(* parsed non-"*" patterns of a configuration (the spec side of "allowed origin") *)
-Definition cfg_patterns (c : config) : list pattern :=
-  flat_map (fun raw => match parse_pattern ace ip6 raw with inl p => [p] | inr _ => [] end) (c_origins c).
+Definition cfg_patterns (c : config) : list pattern := ConfigDoc.cfg_patterns ace ip6 c.
 
 Definition model_state (cfgx : sx) (debug : bool) : option (option icfg * bool) :=
   match dec_config cfgx with
